@@ -1,6 +1,201 @@
 import Driver.Util
+import Sqfs.Model.Path
+import Sqfs.Spec.HardLink
+import Sqfs.Model.TextParse
 namespace Driver.C07
-/-- stub: the model driver for C07 is not built yet -/
+open Sqfs.HardLink
+
+/-! ### hard links: `hl` (repaired model) / `hlcur <fuel>` (model of the shipped code) -/
+
+structure Ent where
+  kind : Tree.Kind
+  name : List UInt8
+  target : List UInt8
+
+def parseEnt (tok : String) : Option Ent :=
+  match tok.splitOn ":" with
+  | [k, n, t] => do
+    let kind ← (match k with
+      | "d" => some Tree.Kind.dir
+      | "f" => some Tree.Kind.other
+      | "s" => some Tree.Kind.other
+      | "l" => some Tree.Kind.hlink
+      | _ => none)
+    let name ← fromHex n
+    let target ← fromHex t
+    -- the callers canonicalise names; the harness refuses anything else too
+    if Sqfs.Path.canonicalize name = some name then some { kind, name, target } else none
+  | _ => none
+
+def errnoStr : Errno → String
+  | .ENOENT => "ENOENT" | .ENOTDIR => "ENOTDIR" | .EMLINK => "EMLINK" | .EPERM => "EPERM"
+
+def addErrStr : Tree.AddErr → String
+  | .EINVAL => "EINVAL" | .ENOTDIR => "ENOTDIR" | .EEXIST => "EEXIST"
+
+def buildTree : Tree.T → Nat → List Ent → Except String Tree.T
+  | t, _, [] => .ok t
+  | t, i, e :: rest =>
+    match Tree.addGeneric Sqfs.Path.canonicalize t e.name e.kind e.target with
+    | .error err => .error s!"adderr {i} {addErrStr err}"
+    | .ok t' => buildTree t' (i + 1) rest
+
+def showOk (t : Tree.T) (st : St) (ents : List Ent) : String :=
+  let one (e : Ent) : String :=
+    match Tree.lookup t e.name with
+    | .fail _ => "?"
+    | .found i =>
+      match (Tree.toGraph t)[i]? with
+      | some (.hlink _) =>
+        (match st.resolved i with
+         | some tg => "L" ++ toHexTok (Tree.pathOf t t.length tg)
+         | none => "L?")
+      | _ => "N" ++ toString (st.linkCount i)
+  "ok R" ++ toString (st.linkCount 0) ++ String.join (ents.map (fun e => " " ++ one e))
+
+def hlStep (cur : Option Nat) (toks : List String) : String :=
+  match toks.mapM parseEnt with
+  | none => "bad-op"
+  | some ents =>
+    match buildTree Tree.init 0 ents with
+    | .error s => s
+    | .ok t =>
+      let g := Tree.toGraph t
+      let links := Tree.links t
+      let st0 := St.init (Tree.counts t)
+      let r := match cur with
+        | none => resolveAllFix g (links.length + 2) st0 links
+        | some fuel => resolveAllCur g fuel st0 links
+      match r with
+      | .ok st => showOk t st ents
+      | .err n e => "err " ++ toHexTok (Tree.pathOf t t.length n) ++ " " ++ errnoStr e
+      | .outOfFuel => "spin"
+      | .badIndex => "bad-index"
+
+/-- monitor: the *specification's* verdict per hard link, most recently created first:
+`<linkpath>=F:<targetpath>:<o|d>` (ends at a non-link), `D:<errno>` (dangling), `C` (cyclic) -/
+def hlSpec (toks : List String) : String :=
+  match toks.mapM parseEnt with
+  | none => "bad-op"
+  | some ents =>
+    match buildTree Tree.init 0 ents with
+    | .error s => s
+    | .ok t =>
+      let g := Tree.toGraph t
+      let one (n : Nat) : String :=
+        toHexTok (Tree.pathOf t t.length n) ++ "=" ++
+        (match specClass g n with
+         | .endsAt tg => "F:" ++ toHexTok (Tree.pathOf t t.length tg) ++ ":" ++ (if g[tg]? = some .dir then "d" else "o")
+         | .dangling e => "D:" ++ errnoStr e.toErrno
+         | .cyclic => "C"
+         | .escapes => "X")
+      "spec" ++ String.join ((Tree.links t).map (fun n => " " ++ one n))
+
+/-! ### parser units -/
+section Parsers
+open Sqfs.ParseTotal
+
+def showR {α : Type} (f : α → String) : R α → String
+  | .ok a => "ok" ++ f a
+  | .fail c => "fail " ++ toString c
+  | .oob => "oob"
+  | .spin => "spin"
+
+def optLen (s : String) : Option (Option Nat) :=
+  if s = "-1" then some none else s.toNat?.map some
+
+def showSparse (l : List SparseEnt) : String :=
+  String.join (l.map (fun e => " " ++ toString e.offset ++ ":" ++ toString e.count))
+
+def showOptHex : Option (List UInt8) → String
+  | none => "~"
+  | some b => toHexTok b
+
+def showPax (o : PaxOut) : String :=
+  " flags=" ++ toString o.flags ++ " uid=" ++ toString o.uid ++ " gid=" ++ toString o.gid ++ " size=" ++ toString o.size ++
+  " actual=" ++ toString o.actual ++ " mtime=" ++ toString o.mtime ++ " name=" ++ showOptHex o.name ++
+  " link=" ++ showOptHex o.link ++ " sparse=[" ++ (showSparse o.sparse).trimAscii.toString ++ "] xattr=[" ++
+  (String.join (o.xattr.map (fun x => " " ++ toHexTok x.key ++ "=" ++ toHexTok x.value))).trimAscii.toString ++ "]"
+
+def parserStep : List String → Option String
+  | ["num", fx, h, d] => do
+    let buf ← fromHex h
+    let digits ← d.toNat?
+    pure (showR (fun v => " " ++ toString v) (readNumber (fx = "1") buf 0 digits))
+  | ["puint", base, len, wd, vmin, vmax, h] => do
+    let s ← fromHex h
+    let b ← base.toNat?
+    let l ← optLen len
+    let lo ← vmin.toNat?
+    let hi ← vmax.toNat?
+    pure (showR (fun (v : Nat × Nat) => " " ++ toString v.1 ++ " " ++ (if wd = "1" then toString v.2 else "-")) (parseU b (s ++ [0]) 0 l (wd = "1") lo hi))
+  | ["pint", len, wd, h] => do
+    let s ← fromHex h
+    let l ← optLen len
+    pure (showR (fun (v : Int × Nat) => " " ++ toString v.1 ++ " " ++ (if wd = "1" then toString v.2 else "-")) (parseI (s ++ [0]) 0 l (wd = "1")))
+  | ["hex", osz, h] => do
+    let s ← fromHex h
+    let o ← osz.toNat?
+    pure (showR (fun v => " " ++ toHexTok v) (hexDecode s 0 s.length o []))
+  | ["b64", cap, h] => do
+    let s ← fromHex h
+    let c ← cap.toNat?
+    pure (showR (fun v => " " ++ toHexTok v) (base64Decode s 0 s.length c))
+  | ["split", sep, len, h] => do
+    let s ← fromHex h
+    let sp ← fromHex sep
+    let l ← (if len = "-1" then some s.length else len.toNat?)
+    if l > s.length then none
+    else pure (match splitLine (s ++ [0]) l sp with
+      | .ok st => showR (fun toks => String.join (toks.map (fun t => " " ++ toHexTok t))) (slTokens st)
+      | .fail c => "fail " ++ toString c
+      | .oob => "oob"
+      | .spin => "spin")
+  | ["dfn", h] => do
+    let s ← fromHex h
+    pure (match decodeFilename (s ++ [0]) with
+      | .ok b => (match cstr b (b.length + 1) 0 with
+          | .ok name => (match Sqfs.Path.canonicalize name with
+              | some c => "ok " ++ toHexTok c
+              | none => "fail 4")
+          | _ => "oob")
+      | .fail c => "fail " ++ toString c
+      | .oob => "oob"
+      | .spin => "spin")
+  | ["xdec", h] => do
+    let s ← fromHex h
+    pure (showR (fun v => " " ++ toHexTok v) (xattrDecode (s ++ [0])))
+  | ["pax", fx, h] => do
+    let s ← fromHex h
+    pure (showR showPax (readPaxHeader (fx = "1") s))
+  | ["spnew", rs, h] => do
+    let s ← fromHex h
+    let r ← rs.toNat?
+    pure (showR (fun (v : List SparseEnt × Nat × List UInt8) => " " ++ toString v.2.1 ++ " " ++ toString v.2.2.length ++ showSparse v.1)
+      (readGnuNewSparse s r))
+  | ["spold", fx, hh, h] => do
+    let hdr ← fromHex hh
+    let s ← fromHex h
+    pure (match readGnuOldSparse (fx = "1") hdr s with
+      | .ok ([], _) => "fail"                 -- an empty map is `NULL`, which `read_header` takes for failure
+      | r => showR (fun (v : List SparseEnt × List UInt8) => " " ++ toString v.2.length ++ showSparse v.1) r)
+  | _ => none
+
+end Parsers
+
+def step (line : String) : String :=
+  match parserStep (words line) with
+  | some r => r
+  | none =>
+  match words line with
+  | "hl" :: toks => hlStep none toks
+  | "hlspec" :: toks => hlSpec toks
+  | "hlcur" :: f :: toks => match f.toNat? with
+      | some fuel => hlStep (some fuel) toks
+      | none => "bad-op"
+  | _ => "bad-op"
+
 def run (_args : List String) : IO Unit := do
-  IO.eprintln "sqfsmodel: model C07 not built yet"
+  lineLoop (← IO.getStdin) (← IO.getStdout) step
+
 end Driver.C07
